@@ -781,7 +781,8 @@ class PyvalColorizer:
 
     def _colorize_ast_generic(self, pyval: ast.AST, state: _ColorizerState) -> None:
         try:
-            source = astor.to_source(pyval).strip()
+            # astor wraps long lines by default: the value would be cut at the first line break.
+            source = astor.to_source(pyval, pretty_source=''.join).strip()
         except Exception: #  No defined handler for node of type <type>
             state.result.append(self.UNKNOWN_REPR)
         else:
